@@ -240,6 +240,11 @@ def obligations(tier, seed):
     add("C12.likelihood.prune[((0,1),(2,3))]", "C01", "scn_prune", ("partials", "((0,1),(2,3))", 2, 1, (), 1))
     add("C12.likelihood.rescaled[((0,1),2)]", "C03", "scn_rescaled", ("partials", "((0,1),2)", 2, 2, (), 1), "rescaled_equals_plain")
     add("C12.likelihood.rescaled[(0,(1,(2,3)))]", "C03", "scn_rescaled", ("partials", "(0,(1,(2,3)))", 2, 1, (), 1), "rescaled_equals_plain")
+    # with the REAL max (arg-max forks): the scalers depend on the inputs, so a scaler cut from the graph is visible
+    add("C12.likelihood.rescaled.realmax[((0,1),2)]", "C03", "scn_rescaled", ("partials", "((0,1),2)", 2, 1, (), 1, True), "rescaled_equals_plain", max_paths=2000)
+    add("C12.likelihood.safe.realmax[((0,1),2)]", "C03", "scn_rescaled", ("safe", "((0,1),2)", 2, 1, (), 1, True), "rescaled_equals_plain", max_paths=2000,
+        crosscheck=0)   # the paths of _safe need values below 1e-40: finite differences are meaningless there
+    add("C12.likelihood.states_rescaled.realmax[((0,1),2)]", "C03", "scn_rescaled", ("states", "((0,1),2)", 2, 1, (), [[0], [1], [2]], True), "rescaled_equals_plain", max_paths=2000)
     add("C12.likelihood.model[unrooted,weibull]", "C01", "scn_model", ("((A,B),C);", ["C", "A", "B"], ["AC", "CG", "GT"], [0.0, 0.0, 0.0], "unrooted", None, "weibull", 2, False, True, (), "JC69"))
     add("C12.likelihood.model[time,strict,invariant]", "C01", "scn_model", ("((A,B),C);", ["A", "B", "C"], ["AC", "CG", "GT"], [0.0, 1.0, 0.0], "time", "strict", "invariant", 2, False, True, (), "JC69"))
     add("C12.likelihood.model[time,simple,tipstates]", "C01", "scn_model", ("((A,B),C);", ["A", "B", "C"], ["AC", "CN", "GT"], [0.0, 1.0, 2.0], "time", "simple", "constant", 1, True, True, (), "JC69"))
